@@ -42,14 +42,18 @@ var oneshotN = []string{"whole", "cptr", "cmid", "cmidend", "c1", "c7", "c512", 
 var processPk = []string{"pk1", "pk7", "pk100", "pk65516", "pkrand", "pkptr"}
 var wts = []string{"absent", "same", "short10"}
 
+// class-P inputs additionally meet a large, unrelated file at the path (git hash-object --path, a
+// file swapped while being added): the pointer must still pass through untouched
+var wtsP = []string{"absent", "same", "big5000"}
+
 func fclass(c fcase, in input) string {
 	return fmt.Sprintf("%s/%s/%s/%s/wt-%s", c.mode(), in.Kind, in.Detail, c.Delivery, c.Wt)
 }
 
 func trigger(c fcase, in input, delivery string) string {
 	t := fmt.Sprintf("%s/%s/%s", c.mode(), in.Kind, delivery)
-	if c.Wt == "short10" && delivery != "any-delivery" {
-		t += "/wt-short10"
+	if (c.Wt == "short10" || c.Wt == "big5000") && delivery != "any-delivery" {
+		t += "/wt-" + c.Wt
 	}
 	return t
 }
@@ -57,7 +61,7 @@ func trigger(c fcase, in input, delivery string) string {
 func main() {
 	run := evid.New("C08", "exploration")
 	defer sbx.RemoveBase()
-	run.Rule = "Inputs classified by construction: P = canonical pointers (ptrspec, random oid/size, 0-3 extension lines) and the frozen non-canonical spellings {CRLF, no final newline, +1/+3 trailing blank lines, hawser URL, git-media URL, empty file}, all < 1024 bytes; N = (a) a class-P text + {x, blank+unknown line, #-comment line, NUL+random payload to 1023/1024/1025/5000 bytes}, (b) canonical pointer padded to >= 1024 bytes with blank lines / spaces / comment lines (also text only after byte 1024), (c) filt content classes {random, text LF/CRLF, zeros, pointer-prefix+payload, look-alike} x sizes {1,2,100,1023,1024,1025,4096,70000}; D = debatable spellings (run, not judged). Delivery: one-shot clean/smudge through a pipe with write(2) plans {whole, 1, 7, 100, 512, 1023, 1024, 1025, 4096, random, first write ends exactly at the end of the pointer text, pointer text split in the middle, both, all-but-last-byte} with drain-aware pauses; filter-process through an independent pkt-line client with packet sizes {1, 7, 100, 65516, random, boundary at end of pointer text}; working-tree file at the path {absent, same, 10 bytes}; optionally one LFS extension configured. Oracle P: clean output == input, object count unchanged, exit 0. Oracle N: clean output is a canonical pointer naming SHA-256/size of a stored object equal to the input, smudge(clean(x)) == x, and smudge(x) == x with success. Git level: repository with LFS files of 8 sizes + look-alikes + pointer blobs in every frozen spelling, cloned / re-checked-out with smudging skipped (env or config), then status, add -A, stash, stash pop, commit -a, add --renormalize, commit -a with all pointer files made stat-dirty before each step; index and HEAD blob ids (plain git) must stay the original pointer blob ids, status clean, object count unchanged; process filter and one-shot filters. Class = all coordinates. A violation seen with a non-default delivery is re-run with the default delivery (same input) and gets trigger delivery 'any-delivery' if it reproduces there."
+	run.Rule = "Inputs classified by construction: P = canonical pointers (ptrspec, random oid/size, 0-3 extension lines) and the frozen non-canonical spellings {CRLF, no final newline, +1/+3 trailing blank lines, hawser URL, git-media URL, empty file}, all < 1024 bytes; N = (a) a class-P text + {x, blank+unknown line, #-comment line, NUL+random payload to 1023/1024/1025/5000 bytes}, (b) canonical pointer padded to >= 1024 bytes with blank lines / spaces / comment lines (also text only after byte 1024), (c) filt content classes {random, text LF/CRLF, zeros, pointer-prefix+payload, look-alike} x sizes {1,2,100,1023,1024,1025,4096,70000}; D = debatable spellings (run, not judged). Delivery: one-shot clean/smudge through a pipe with write(2) plans {whole, 1, 7, 100, 512, 1023, 1024, 1025, 4096, random, first write ends exactly at the end of the pointer text, pointer text split in the middle, both, all-but-last-byte} with drain-aware pauses; filter-process through an independent pkt-line client with packet sizes {1, 7, 100, 65516, random, boundary at end of pointer text}; working-tree file at the path {absent, same, 10 bytes, 5000 unrelated bytes (class P)}; optionally one LFS extension configured. Oracle P: clean output == input, object count unchanged, exit 0. Oracle N: clean output is a canonical pointer naming SHA-256/size of a stored object equal to the input, smudge(clean(x)) == x, and smudge(x) == x with success. Git level: repository with LFS files of 8 sizes + look-alikes + pointer blobs in every frozen spelling, cloned / re-checked-out with smudging skipped (env or config), then status, add -A, stash, stash pop, commit -a, add --renormalize, commit -a with all pointer files made stat-dirty before each step; index and HEAD blob ids (plain git) must stay the original pointer blob ids, status clean, object count unchanged; process filter and one-shot filters. Class = all coordinates. A violation seen with a non-default delivery is re-run with the default delivery (same input) and gets trigger delivery 'any-delivery' if it reproduces there."
 	run.Assumptions = []string{
 		"class membership is by construction; the frozen non-canonical spellings were confirmed once against the pinned decoder (git lfs pointer --check --stdin/--file) and are data in inputs.go",
 		"pipe chunking with drain-aware pauses is a legal OS schedule; nothing is assumed about timing",
@@ -94,14 +98,14 @@ func main() {
 				if run.Quick() && d == "c100" && si%2 == 0 {
 					continue
 				}
-				addF(fcase{Mode: "oneshot", Kind: kind, NExt: (k + round) % 4, Delivery: d, Wt: wts[(k+di+round)%2]})
+				addF(fcase{Mode: "oneshot", Kind: kind, NExt: (k + round) % 4, Delivery: d, Wt: wtsP[(k+di+round)%3]})
 			}
 			for di, d := range processPk {
 				k++
 				if run.Quick() && (di+si)%2 == 1 {
 					continue
 				}
-				addF(fcase{Mode: "process", Kind: kind, NExt: (k + round) % 4, Delivery: d, Wt: wts[(k+round)%2]})
+				addF(fcase{Mode: "process", Kind: kind, NExt: (k + round) % 4, Delivery: d, Wt: wtsP[(k+di+round)%3]})
 			}
 		}
 		// ---- class N (a): pointer text + tail
@@ -268,7 +272,7 @@ func runFilterCase(run *evid.Run, c fcase, seed int64) {
 	flush(run, o)
 	base := map[string]bool{}
 	minimised := false
-	if len(vs) > 0 && (c.Delivery != c.baselineDelivery() || c.Wt == "short10") {
+	if len(vs) > 0 && (c.Delivery != c.baselineDelivery() || c.Wt == "short10" || c.Wt == "big5000") {
 		// trigger minimisation: does the same failure happen with the default delivery of the same
 		// input and no file in the working tree?
 		bc := c
